@@ -27,10 +27,20 @@ def parseHeaderC16 (j : Json) : M (Header Rat) := do
     | .arr #[k, v] => pure ((← asStr k), (← asRat v))
     | _ => .error "expected [keyword, value]"
 
+/-- a quantity-valued argument: {"num": v} | {"q": v, "scale": s} | {"bad": v} -/
+def parseQInC16 (j : Json) : M (QIn Rat) :=
+  match fOpt j "num", fOpt j "q", fOpt j "bad" with
+  | some v, _, _ => do pure (.number (← asRat v))
+  | _, some v, _ => do pure (.quantity (← asRat v) (← fRat j "scale"))
+  | _, _, some v => do pure (.incompatible (← asRat v))
+  | _, _, _ => .error "expected {num} | {q, scale} | {bad}"
+
+def fQInC16 (j : Json) (k : String) : M (QIn Rat) := getField j k >>= parseQInC16
+
 def parseStepC16 (j : Json) : M (ThStep Rat) := do
   match ← fStr j "act" with
-  | "set_T" => pure (.setTemp (← fRat j "tval") (← fRat j "tscale"))
-  | "set_fill" => pure (.setFill (← fRat j "fill"))
+  | "set_T" => pure (ThStep.ofTemp (← fQInC16 j "tq"))
+  | "set_fill" => pure (ThStep.ofFill (← fQInC16 j "fq"))
   | "query" => pure .query
   | a => .error s!"unknown step {a}"
 
@@ -39,6 +49,13 @@ def parseStepsC16 (j : Json) : M (List (ThStep Rat)) :=
   match fOpt j "steps" with
   | none => pure []
   | some v => do (← asArr v).mapM parseStepC16
+
+/-- outcome of every assignment of a history, in order: "ok" or the error class -/
+def jAssignC16 (steps : List (ThStep Rat)) : Json :=
+  Json.arr (steps.filterMap fun
+    | .query => none
+    | .refused => some (Json.str Err.unitError.name)
+    | _ => some (Json.str "ok")).toArray
 
 def jHistoryC16 (h : List (Rat × Rat × Except Err (List Rat))) : Json :=
   Json.arr (h.map fun (t, f, s) => Json.mkObj [
@@ -50,23 +67,24 @@ def dispatchC16M (op : String) (j : Json) : M Json := do
       -- SourceSpectrum(BlackBody1D|BlackBodyNorm1D, temperature=tval*unit): samples, lambda_max, integrate
       let C ← getField j "const" >>= parseConstC16
       let k ← fStr j "kind" >>= parseKindC16
-      let t := tempKelvin (← fRat j "tval") (← fRat j "tscale")
+      let tq ← fQInC16 j "tq"
       let w ← fRats j "w"
-      pure (Json.mkObj [
+      pure (outcome (fun (t : Rat) => Json.mkObj [
         ("sample", outcome jRats (bbSample C transcQ k t w)),
         ("lambda_max", outcome jRat (lambdaMax C t)),
-        ("integrate", jRat (bbIntegrate C transcQ k t))])
+        ("integrate", jRat (bbIntegrate C transcQ k t))]) tq.value)
   | "thermal" => do
       -- ThermalSpectralElement(Empirical1D, T, beam_fill_factor, points, lookup_table).thermal_source()(w)
       let C ← getField j "const" >>= parseConstC16
-      let th := mkThermal (← fRat j "tval") (← fRat j "tscale") (← fRat j "fill") (← fRats j "pts") (← fRats j "vals")
+      let r := mkThermalQ (← fQInC16 j "tq") (← fQInC16 j "fq") (← fRats j "pts") (← fRats j "vals")
       let w ← fRats j "w"
       let steps ← parseStepsC16 j
-      pure (Json.mkObj [
+      pure (outcome (fun (th : Thermal Rat) => Json.mkObj [
         ("temp", jRat th.temp), ("fill", jRat th.beamFill),
         ("emis", jRats (w.map th.emis.eval)),
         ("sample", outcome jRats (thermalSourceSample C transcQ th w)),
-        ("history", jHistoryC16 (thermalHistory C transcQ w th steps))])
+        ("assign", jAssignC16 steps),
+        ("history", jHistoryC16 (thermalHistory C transcQ w th steps))]) r)
   | "thermal_file" => do
       -- ThermalSpectralElement.from_file(name, temperature_key, beamfill_key) and its thermal source
       let C ← getField j "const" >>= parseConstC16
@@ -78,6 +96,7 @@ def dispatchC16M (op : String) (j : Json) : M Json := do
       pure (outcome (fun (th : Thermal Rat) => Json.mkObj [
         ("temp", jRat th.temp), ("fill", jRat th.beamFill),
         ("sample", outcome jRats (thermalSourceSample C transcQ th w)),
+        ("assign", jAssignC16 steps),
         ("history", jHistoryC16 (thermalHistory C transcQ w th steps))]) r)
   | _ => .error s!"unknown op {op}"
 
